@@ -199,7 +199,15 @@ func (g *gen) genStatement(typ types.Type, this, that string) error {
 			p.P("}")
 			p.P("if %s != nil && %s != nil {", this, that)
 			p.In()
-			if err := g.genStatement(reftyp, thisref, thatref); err != nil {
+			if _, refIsPtr := reftyp.Underlying().(*types.Pointer); refIsNamed(reftyp) && refIsPtr {
+				// a named pointer type may point to itself (type P *P): its values are compared by its own function,
+				// dereferencing in place would never come to an end.
+				fieldStr, err := g.field(wrap(thisref), wrap(thatref), reftyp)
+				if err != nil {
+					return err
+				}
+				p.P("return " + fieldStr)
+			} else if err := g.genStatement(reftyp, thisref, thatref); err != nil {
 				return err
 			}
 			p.Out()
@@ -377,6 +385,11 @@ func wrap(value string) string {
 		return "(" + value + ")"
 	}
 	return value
+}
+
+func refIsNamed(t types.Type) bool {
+	_, isNamed := t.(*types.Named)
+	return isNamed
 }
 
 func canEqual(tt types.Type) bool {
